@@ -255,9 +255,11 @@ Qed.
 (* ---- get_range computes exactly these *)
 Lemma K_small : K < 2 ^ 53.
 Proof.
-  pose proof K_ge. assert (Hpow : 2 ^ (i + 53) = 2 ^ i * 2 ^ 53) by (apply Z.pow_add_r; lia). rewrite Hpow in T3.
-  pose proof pi_pos. assert (0 < 2 ^ 53) by (apply pow2_pos'; lia).
-  assert (K * 2 ^ i <= 2 ^ 53) by nia. nia.
+  pose proof K_ge as HK. assert (Hpow : 2 ^ (i + 53) = 2 ^ i * 2 ^ 53) by (apply Z.pow_add_r; lia). rewrite Hpow in T3.
+  pose proof pi_pos as Hpi. assert (HP : 0 < 2 ^ 53) by (apply pow2_pos'; lia).
+  set (P := 2 ^ 53) in *. set (Q := 2 ^ i) in *. clearbody P Q. clear - T3 HK Hpi HP.
+  assert (H1 : K * (K + 4) * Q <= Q * P) by nia.
+  assert (H2 : K * (K + 4) <= P) by nia. nia.
 Qed.
 
 Lemma fin_small u : 0 <= u -> u <= re -> fin_or_inf false u = FFin false u.
@@ -337,3 +339,69 @@ Proof.
     + apply Hlt. unfold re. lia.
 Qed.
 End Spread.
+
+(* ---------------------------------------------------------------------------------------------- *)
+(* the density condition, and the concrete thresholds *)
+Require Import Grist.Proofs.Relabel_sparse_proofs.
+
+Definition sparse_enough (i K : Z) : Prop :=
+  3 * K < 2 ^ (i + 1) /\ K * (K + 1) <= 2 ^ (i + 1) /\ K * (2 ^ 53 + (K + 4) * 2 ^ i) <= 2 ^ (i + 53).
+Definition sparse_enoughb (i K : Z) : bool :=
+  (3 * K <? 2 ^ (i + 1)) && (K * (K + 1) <=? 2 ^ (i + 1)) && (K * (2 ^ 53 + (K + 4) * 2 ^ i) <=? 2 ^ (i + 53)).
+
+Lemma sparse_enoughb_sound i K : sparse_enoughb i K = true -> sparse_enough i K.
+Proof.
+  unfold sparse_enoughb, sparse_enough. intros H. apply andb_prop in H. destruct H as [H H3].
+  apply andb_prop in H. destruct H as [H1 H2]. apply Z.ltb_lt in H1. apply Z.leb_le in H2. apply Z.leb_le in H3. auto.
+Qed.
+
+Lemma sparse_enough_mono i K K' : 0 <= i -> 1 <= K' <= K -> sparse_enough i K -> sparse_enough i K'.
+Proof.
+  intros Hi HK (H1 & H2 & H3). assert (0 < 2 ^ i) by (apply pow2_pos'; lia). assert (0 < 2 ^ 53) by (apply pow2_pos'; lia).
+  unfold sparse_enough. set (P := 2 ^ 53) in *. set (Q := 2 ^ i) in *. set (Q1 := 2 ^ (i + 1)) in *. set (Q53 := 2 ^ (i + 53)) in *.
+  clearbody P Q Q1 Q53. split; [lia|]. split; [nia|].
+  assert (A1 : K' * (K' + 4) <= K * (K + 4)) by nia.
+  assert (A2 : K' * P <= K * P) by nia.
+  assert (A3 : K' * (K' + 4) * Q <= K * (K + 4) * Q) by nia.
+  replace (K' * (P + (K' + 4) * Q)) with (K' * P + K' * (K' + 4) * Q) by ring.
+  replace (K * (P + (K + 4) * Q)) with (K * P + K * (K + 4) * Q) in H3 by ring. lia.
+Qed.
+
+(* the largest integer below a threshold *)
+Definition cmaxZ (x : fl) : Z :=
+  match x with FFin false u => (u - 1) / 2 ^ 1074 | FInf false => 2 ^ 53 | _ => -1 end.
+
+Definition posb (x : fl) : bool := match x with FFin false _ | FInf false => true | _ => false end.
+
+Lemma flt_of_Z_cmax c x : 0 <= c < 2 ^ 53 -> posb x = true -> flt (of_Z c) x = true -> c <= cmaxZ x.
+Proof.
+  intros Hc Hp H. rewrite of_Z_int in H by lia. apply flt_iff in H. destruct H as (_ & Hn & H). rewrite ford_fint in H.
+  assert (H1074 : 0 < 2 ^ 1074) by (apply pow2_pos'; lia).
+  destruct x as [| [|] | [|] u]; cbn [cmaxZ ford is_nan posb] in *; try discriminate; try lia.
+  apply Z.div_le_lower_bound; [lia|]. lia.
+Qed.
+
+Lemma threshold_table :
+  forallb (fun i => sparse_enoughb (Z.of_nat i) (cmaxZ (thr f114 i) + 1) &&
+                    sparse_enoughb (Z.of_nat i) (cmaxZ (thr f130 i) + 1)) (seq 2 62) = true.
+Proof. vm_compute. reflexivity. Qed.
+
+Lemma threshold_small :
+  forallb (fun i => posb (thr f114 i) && posb (thr f130 i)) (seq 0 64) = true /\
+  cmaxZ (thr f114 0) = 0 /\ cmaxZ (thr f130 0) = 0 /\ cmaxZ (thr f114 1) = 1 /\ cmaxZ (thr f130 1) = 1.
+Proof. vm_compute. repeat split; reflexivity. Qed.
+
+(* a level i >= 2 that passes the density test "count < thresh" is sparse enough for spread_strict *)
+Theorem level_dense (i : nat) frac c : (2 <= i < 64)%nat -> frac = f114 \/ frac = f130 -> 1 <= c < 2 ^ 53 ->
+  flt (of_Z c) (thr frac i) = true -> sparse_enough (Z.of_nat i) (c + 1).
+Proof.
+  intros Hi Hf Hc Hlt.
+  assert (Hpos : posb (thr frac i) = true).
+  { destruct threshold_small as (HP & _). rewrite forallb_forall in HP. specialize (HP i ltac:(apply in_seq; lia)).
+    apply andb_prop in HP. destruct Hf as [-> | ->]; tauto. }
+  pose proof (flt_of_Z_cmax c _ ltac:(lia) Hpos Hlt) as Hmax.
+  pose proof threshold_table as HT. rewrite forallb_forall in HT.
+  specialize (HT i ltac:(apply in_seq; lia)). apply andb_prop in HT. destruct HT as [H1 H2].
+  apply (sparse_enough_mono (Z.of_nat i) (cmaxZ (thr frac i) + 1)); [lia | lia |].
+  destruct Hf as [-> | ->]; apply sparse_enoughb_sound; assumption.
+Qed.
